@@ -18,11 +18,14 @@ PROPERTIES = {
                         'close-and-reopen is the persistence assumption of the trusted LMDB / mmap contracts'],
     },
     'C07': {
-        'units': ['filter_json', 'filter_parse', 'lex', 'hexread', 'escape', 'hexwrite'],
-        'sample_functions': ['Filter::as_json', 'read_u64', 'read_id', 'parse_json_filter'],
-        'not_decided': ['parse_json_filter against a jfilter spec (values faithful, order independence as a corollary) is not yet stated: proved are its totality, the duplicate-letter/limit/overflow repairs (as absence of panics and of truncating casts) and every leaf reader against its grammar-level spec',
-                        'the lemma jfilter(filter_json(v)) == v (byte-identical re-parse) is not stated; proved is Filter::as_json == filter_json(view): members in fixed order, comma separated, values JSON-escaped'],
+        'units': ['filter_parse', 'from_json', 'filter_json', 'lex', 'hexread', 'escape', 'hexwrite'],
+        'sample_functions': ['parse_json_filter', 'Filter::from_json', 'Filter::as_json', 'json_unescape', 'read_u64', 'read_id'],
+        'not_decided': ['completeness at the entry point (every filter text is ACCEPTED when the buffer is large enough) is proved leaf by leaf but not composed for parse_json_filter',
+                        'order independence is a corollary of faithfulness to the order-insensitive scan for the values of ids, authors, kinds, since, until and limit; the ORDER of tag constraints in the binary follows the order of the "#L" members in the text (the spec says so too), so two texts that differ in the order of their "#L" members yield filters that are equal as sets of constraints but not byte-identical',
+                        'the lemma jfilter(filter_json(v)) == v (byte-identical re-parse) is not stated; proved is Filter::as_json == filter_json(view): members in fixed order, comma separated, values JSON-escaped',
+                        'member keys are recognised by their raw bytes (as in C01)'],
     },
+
     'C01': {
         'units': ['utf8', 'escape', 'lex', 'hexread', 'tagsjson', 'event_parse', 'from_json', 'event'],
         'kani': ['leaf'], 'kani_quick': ['leaf'],
